@@ -1122,7 +1122,7 @@ class Signature:
         if not extra_keywords_accepted:
             extra_kwargs = set(actual_args.keywords) - keywords_consumed
             if extra_kwargs:
-                extra_kwargs_str = ", ".join(map(repr, extra_kwargs))
+                extra_kwargs_str = ", ".join(map(repr, sorted(extra_kwargs)))
                 if len(extra_kwargs) == 1:
                     message = f"Got an unexpected keyword argument {extra_kwargs_str}"
                 else:
